@@ -3,6 +3,7 @@ package props
 import (
 	"bytes"
 	"fmt"
+	"io"
 	"math/rand"
 	"sort"
 	"strings"
@@ -143,7 +144,7 @@ func TestC19(t *testing.T) {
 			if r.Quick() && sz > 64<<10 && s > 0 {
 				continue
 			}
-			gens = append(gens, g{"UnixFSFile", sz, s}, g{"UnixFSDirectory", sz, s}, g{"UnixFSDirectory-dirname", sz, s}, g{"UnixFSDirectory-sharded", sz, s}, g{"UnixFSDirectory-custom", sz, s},
+			gens = append(gens, g{"UnixFSFile", sz, s}, g{"UnixFSFile-shortsource", sz, s}, g{"UnixFSDirectory", sz, s}, g{"UnixFSDirectory-dirname", sz, s}, g{"UnixFSDirectory-sharded", sz, s}, g{"UnixFSDirectory-custom", sz, s},
 				g{"GenerateDirectory", sz, s}, g{"GenerateDirectory-sharded", sz, s}, g{"GenerateDirectoryFrom", sz, s}, g{"BuildDirectory", sz, s}, g{"WrapContent-exclusive", sz, s}, g{"WrapContent", sz, s})
 		}
 	}
@@ -164,6 +165,13 @@ func TestC19(t *testing.T) {
 				case "UnixFSFile":
 					chunker := []string{"size-256144", "size-1000", "size-64"}[gg.Var%3]
 					de, err = testutil.UnixFSFile(*ls, gg.Size, testutil.WithRandReader(rnd), testutil.WithChunker(chunker))
+				case "UnixFSFile-shortsource":
+					// a random source that runs dry before the target size is reached (also at once)
+					have := []int{0, 1, gg.Size / 3, gg.Size - 1}[gg.Var%4]
+					de, err = testutil.UnixFSFile(*ls, gg.Size, testutil.WithRandReader(io.LimitReader(rnd, int64(have))), testutil.WithChunker([]string{"size-1000", "size-64"}[gg.Var%2]))
+					if err == nil && len(de.Content) > have {
+						c.Violation("C19|UnixFSFile-shortsource|content-longer-than-source", "UnixFSFile(size %d) on a source of %d bytes describes %d content bytes", gg.Size, have, len(de.Content))
+					}
 				case "UnixFSDirectory":
 					pathRule = true
 					de, err = testutil.UnixFSDirectory(*ls, gg.Size, testutil.WithRandReader(rnd))
